@@ -227,6 +227,7 @@ func runC09(l *core.Ledger) {
 	l.Rule("C09-W4", "a server-stream correctable registers defer deleteRouter(id) for every node of the configuration before entering its reply loop")
 	l.Rule("C09-W6", "the stream is marked broken only on transport errors: no error value that can be a context's Err() (directly or through a repository function's result) leads to streamBroken.set()")
 	l.Rule("C09-W9", "who may end a stream: the cancel function is called only while the stream is being replaced (streamMut write-held) or by sendMsg's per-write watcher; it is never handed to anything else")
+	l.Rule("C09-W10", "the per-write watcher resets the stream only for a write that is still in progress: its evidence is ordered before the delivery of any reply to the request (today: a flag the writer raises after SendMsg has returned, which a reply can overtake), or it checks that the request has not been answered")
 	l.Rule("C09-W8", "streamBroken.set() happens with streamMut held (the failed stream is still current) or on the not-yet-established branch (no reader exists)")
 	l.Rule("C09-W7", "the per-node goroutines (sender, receiver) return only inside a parentCtx.Done() case: nothing a call or a peer does can end them")
 	l.Rule("C09-W5", "the 'held while acquiring' graph over all mutexes of the runtime is acyclic and has no self-edge")
@@ -933,6 +934,9 @@ func c09W9(l *core.Ledger, r *rt) {
 						}
 						inWatcher := u.Parent().Parent() != nil
 						l.Check(held || inWatcher, "C09-W9", key, u.Pos(), "called while the stream is being replaced / by the per-write watcher", "the stream is cancelled outside the stream replacement and outside the per-write watcher")
+						if inWatcher && !held {
+							c09W10(l, r, u)
+						}
 						continue
 					}
 					if callee := u.Call.StaticCallee(); callee != nil && callee.Parent() != nil && inRepo(callee) {
@@ -1210,4 +1214,65 @@ func findEntryPointsQuiet(l *core.Ledger, r *rt) []*entryPoint {
 	var eps []*entryPoint
 	l.With(map[string]string{}, func() { eps = findEntryPoints(l, r, "C09-W3") })
 	return eps
+}
+
+// c09W10: what the watcher knows when it resets the stream. The watcher polls
+// a channel that the writing goroutine closes after SendMsg has returned.
+// Nothing orders that close before the delivery of the reply: the server can
+// answer, the reader can route the reply, the caller can return and cancel its
+// context (the ordinary `defer cancel()`) while the writer has not yet executed
+// the statement after SendMsg. The watcher then sees "context ended, write not
+// finished" and resets a healthy stream; the next call on the node fails.
+func c09W10(l *core.Ledger, r *rt, cancelCall *ssa.Call) {
+	w := cancelCall.Parent()
+	key := fnKey(w.Parent()) + "/watcher/cancel-after-completion"
+	// evidence that the request is still unanswered: a read of the router map reachable from the
+	// watcher before the cancel (directly or through a repository function)
+	readsRouters := false
+	var visit func(f *ssa.Function, depth int)
+	seen := map[*ssa.Function]bool{}
+	mapField := routerMapField(r)
+	visit = func(f *ssa.Function, depth int) {
+		if f == nil || seen[f] || depth > 3 {
+			return
+		}
+		seen[f] = true
+		sx.AllInstrs(f, func(nd sx.Node, in ssa.Instruction) {
+			if lk, ok := in.(*ssa.Lookup); ok {
+				if sx.All(sx.Origins(lk.X), func(o sx.Origin) bool { return o.Kind == sx.KField && o.Field == mapField }) {
+					if f != w || sx.InstrDominates(w, lk, sx.NodeOf(cancelCall)) {
+						readsRouters = true
+					}
+				}
+			}
+			if c, ok := in.(*ssa.Call); ok {
+				if cs := c.Call.StaticCallee(); cs != nil && inRepo(cs) && (f != w || sx.InstrDominates(w, c, sx.NodeOf(cancelCall))) {
+					visit(cs, depth+1)
+				}
+			}
+		})
+	}
+	visit(w, 0)
+	// the flag: a channel closed in the parent after the stream write
+	closedAfterWrite := false
+	sx.AllInstrs(w.Parent(), func(nd sx.Node, in ssa.Instruction) {
+		c, ok := in.(*ssa.Call)
+		if !ok {
+			return
+		}
+		if b, isB := c.Call.Value.(*ssa.Builtin); isB && b.Name() == "close" {
+			// reached only after a client SendMsg
+			if _, avoid := sx.Reach(sx.Entry(w.Parent()), func(x sx.Node) bool { return x == nd }, sx.Query{BlockNode: func(x sx.Node) bool {
+				cc := sx.CallOf(x.Instr())
+				return cc != nil && cc.IsInvoke() && cc.Method.Name() == "SendMsg"
+			}}); !avoid {
+				closedAfterWrite = true
+			}
+		}
+	})
+	if readsRouters || !closedAfterWrite {
+		l.OK("C09-W10", key, cancelCall.Pos(), "the watcher has evidence that the request is unanswered / the flag is not raised behind the write")
+		return
+	}
+	l.Bad("C09-W10", key, cancelCall.Pos(), "the watcher resets the stream when the request's context has ended and the writer has not yet closed its done channel - which the writer does after SendMsg has returned. A reply can overtake that: the server answers, the reader routes the reply, the caller returns and cancels its context (defer cancel()) before the writing goroutine has run the statement after SendMsg. The finished call then resets a healthy stream and the next call on the node fails with 'stream is down' / EOF")
 }
